@@ -187,10 +187,11 @@ def foldRight (node : H → H → H) : List H → Option H
 /-- `subTreeHash(lo, hi, hashes) = (hash, leftover)` -/
 def subTreeHash (node : H → H → H) (lo hi : Nat) (hashes : List H) : Except Err (H × List H) := do
   let numTree ← numTreeF (hi - lo) lo hi
-  if hashes.length < numTree then .error .panic else
-  match foldRight node (hashes.take numTree).reverse with
-  | none => .error .panic            -- numTree = 0: hashes[-1], index out of range
-  | some h => .ok (h, hashes.drop numTree)
+  if hashes.length < numTree then .error .panic
+  else
+    match foldRight node (hashes.take numTree).reverse with
+    | none => .error .panic            -- numTree = 0: hashes[-1], index out of range
+    | some h => .ok (h, hashes.drop numTree)
 
 /-- `TreeHash(n, r)`; `emptyHash` is a parameter (SHA-256 of the empty string in the code). -/
 def treeHash (node : H → H → H) (emptyHash : H) (n : Nat) (r : HashReader H) : Except Err H :=
